@@ -799,7 +799,7 @@ func runC08(sh *core.Shard, a props.Args) {
 		return
 	}
 	defer StopAll(rg.nodes)
-	total := a.Pick(1600, 40000)
+	total := a.Pick(1600, 20000) // thorough: about 35 min on 8 race-built shards
 	maxBody := a.Pick(300000, 2<<20)
 	if v, err := strconv.Atoi(os.Getenv("VERIF_C08_MAXBODY")); err == nil && v > 0 {
 		maxBody = v // development aid: exercise the thorough tier's body sizes in a quick run
@@ -874,7 +874,16 @@ func runC08(sh *core.Shard, a props.Args) {
 
 func init() {
 	props.Register(&props.Prop{
-		ID: "C08", Level: "exploration", Race: true, Parallel: 8, BoundedTime: true,
+		ID: "C08", Level: "exploration", Race: true, Parallel: 8,
+		// (not BoundedTime: "never a hang" is decided by the per-request watchdogs of
+		// the failure matrix; the shard watchdog only bounds the size of the run, and
+		// its firing is inconclusive)
+		Timeout: func(tier string) time.Duration {
+			if tier == "thorough" {
+				return 120 * time.Minute
+			}
+			return 20 * time.Minute
+		},
 		Rule: "a 2-node real cluster (proxy timeout 400 ms) with a raw recording responder on a piko listener; a raw-socket HTTP/1.1 client sends seeded requests through the local node and through the other node (forwarded): 9 methods incl. HEAD/OPTIONS/PATCH and an extension method, targets with %2F %20 %25 %3F UTF-8 // .. ;params and odd queries, 0-30 headers with duplicates, mixed case, empty and 3 KB values, Cookie lists, optional User-Agent / Accept-Encoding / X-Forwarded-For, Host label or x-piko-endpoint addressing, bodies 0 B-300 KB (thorough 2 MiB) fixed-length or chunked; the upstream answers from a seeded script (22 statuses, duplicate headers, Set-Cookie lists, empty values, identity/chunked/empty bodies, gzip when accepted). Oracle: the upstream saw the same method, raw request target, Host, body and every end-to-end header (per name, values in order) and nothing else except X-Forwarded-For (appended), X-Piko-Forward, Accept-Encoding: gzip when the client sent none, and framing headers; the client received the upstream's status, end-to-end headers (nothing fabricated except Date and framing) and body (transparently gunzipped only when the client had not asked for gzip). Failure matrix, enumerated completely on both paths: no endpoint derivable (5 Host shapes) => 400; nobody serves it, upstream closes at once / mid-headers, remote proxy port closed, upstream announced go-away after having served three requests => 502; never answers / answers after the timeout => 504 no earlier than the timeout and no later than timeout+5 s; slower but inside the timeout => 200; Upgrade: websocket / WebSocket / WEBSOCKET idle for 4x the timeout stays open. Asymmetric rig: the entry node (timeout 400 ms) forwards to a node with timeout 60 s whose upstream hangs or answers after 3.2 s => 504 from the entry node within its own timeout+5 s. Fault-matrix requests have a 20-30 s watchdog whose expiry is a violation (the property says 'never a hang'); transparency requests run on a rig whose timeouts are 5 min, so that slowness of a starved machine is not mistaken for a gateway failure. Distinct = hash of (method, path, via, header count, sizes, framing, status).",
 		Assumptions: []string{
 			"reason phrases, header-name case and Date/Content-Length/Transfer-Encoding framing are not part of the comparison (hop-by-hop or case-insensitive by the HTTP spec)",
